@@ -41,7 +41,7 @@ where
             minimal_length_minus_flags += 4;
         }
         if flags.has_offset() {
-            minimal_length_minus_flags += 4;
+            minimal_length_minus_flags += 2;
         }
         if reader.len() < minimal_length_minus_flags {
             return Err(DecodeError::IncompleteDataMessageHeader);
@@ -64,26 +64,29 @@ where
         } else {
             None
         };
+        let mut offset_size: usize = 0;
         if flags.has_offset() {
-            let offset_size = unsafe { reader.read_u16_be_unchecked() };
-            if reader.len() < offset_size as usize {
-                return Err(DecodeError::InvalidOffset(offset_size));
+            let size = unsafe { reader.read_u16_be_unchecked() };
+            if reader.len() < size as usize {
+                return Err(DecodeError::InvalidOffset(size));
             }
-            reader.skip_bytes(offset_size as usize);
+            reader.skip_bytes(size as usize);
+            offset_size = size as usize;
         }
 
         let payload_length;
         if let Some(length) = maybe_length {
-            let minimal_length = minimal_length_minus_flags + 2;
-            if length as usize > reader.len() + minimal_length {
+            // The length field counts every octet from the first flag octet
+            let header_length = minimal_length_minus_flags + 2 + offset_size;
+            if (length as usize) < header_length || length as usize - header_length > reader.len() {
                 return Err(DecodeError::IncompleteDataMessagePayload);
             }
-            payload_length = length as usize;
+            payload_length = length as usize - header_length;
         } else {
             payload_length = reader.len();
         }
 
-        if reader.is_empty() {
+        if payload_length == 0 {
             return Err(DecodeError::EmptyDataMessagePayload);
         }
 
